@@ -163,6 +163,19 @@ func c15RoundTrip(in *hub.Instance) ([]c15Diff, *hub.Instance, *hub.Snapshot, er
 			}
 			return false
 		}
+		// keys of a chain that the Chains parameter does not (or no longer) list
+		configured := map[string]bool{}
+		for _, c := range in.Hub.GetChains(ctx) {
+			configured[c.String()] = true
+		}
+		offChain := func(k string) bool {
+			for _, c := range []string{"ethereum", "minter", "bsc", "hub"} {
+				if len(k) > len(c) && k[1:1+len(c)] == c {
+					return !configured[c]
+				}
+			}
+			return false
+		}
 		a := map[string][]byte{}
 		for _, kv := range orig.Stores[store] {
 			if trivial(kv) {
@@ -184,6 +197,11 @@ func c15RoundTrip(in *hub.Instance) ([]c15Diff, *hub.Instance, *hub.Snapshot, er
 			delete(a, string(kv.K))
 		}
 		for k := range a {
+			if store == mhubtypes.StoreKey && offChain(k) {
+				// ExportGenesis walks the chains of the Chains parameter only
+				get("(state of a chain that is not in the Chains parameter)").lost++
+				continue
+			}
 			if stale[k] {
 				get(nameOf([]byte(k)) + "(stale entry of a superseded registration)").lost++
 			} else {
@@ -203,12 +221,19 @@ func c15RoundTrip(in *hub.Instance) ([]c15Diff, *hub.Instance, *hub.Snapshot, er
 	cmp(mhubtypes.StoreKey, mhubPrefixNames)
 	cmp(oracletypes.StoreKey, oraclePrefixNames)
 	// module params
+	// (an empty list is stored as [] or as null depending on how it was decoded: the same value)
+	norm := func(v []byte) string {
+		if string(v) == "null" {
+			return "[]"
+		}
+		return string(v)
+	}
 	pa := map[string]string{}
 	for _, kv := range orig.Stores["params"] {
-		pa[string(kv.K)] = string(kv.V)
+		pa[string(kv.K)] = norm(kv.V)
 	}
 	for _, kv := range re.Stores["params"] {
-		if pa[string(kv.K)] != string(kv.V) {
+		if pa[string(kv.K)] != norm(kv.V) {
 			diffs = append(diffs, c15Diff{Site: "params/" + string(kv.K), Detail: "param differs after round trip"})
 		}
 		delete(pa, string(kv.K))
